@@ -165,7 +165,9 @@ def oracle(case) -> Result:
                     sp = dict(vars(m))
                     io = ('in_features', 'out_features') if typ is nn.Linear else (
                         'in_channels', 'out_channels')
-                    sp[io[0]] = torch.tensor(float(L['n_in']))
+                    # a depthwise layer's channels at precision p form a depthwise layer of npc
+                    # channels (one input channel per output channel), not of all input channels
+                    sp[io[0]] = torch.tensor(float(npc if ng.is_dw(n) else L['n_in']))
                     sp[io[1]] = torch.tensor(float(npc))
                     sp['output_shape'] = (batch,) + tuple(shapes[nid])
                     sp['in_precision'] = torch.tensor(float(L['in_bits']))
